@@ -52,7 +52,12 @@ def generic_rules(ctx, pid):
         if m is None:
             continue
         ctx.guarded(pid + '-G1', rel + '@tolerances', abstol.check, ctx, pid + '-G1', m)
-    from . import rangelist
+    from . import rangelist, hiddenstate
+    ctx.rule(pid + '-G3', 'no function of the anchored modules keeps results in module-level containers, function attributes or mutable defaults (a second call must not see the first)')
+    for rel in files:
+        m = by_rel.get(rel)
+        if m is not None:
+            ctx.guarded(pid + '-G3', rel + '@hidden-state', hiddenstate.check, ctx, pid + '-G3', m, [q for q, _ in m.functions() if q.count('.') <= 1], 'the result')
     ctx.rule(pid + '-G2', 'a configuration list is replaced by a range built from its end points only where every element was compared')
     for rel in files:
         m = by_rel.get(rel)
